@@ -621,7 +621,11 @@ pub fn cache(attr: TokenStream, item: TokenStream) -> TokenStream {
     // Detect Result type
     let is_result = {
         let s = quote!(#ret_type).to_string().replace(' ', "");
-        s.starts_with("Result<") || s.starts_with("std::result::Result<")
+        s.starts_with("Result<")
+            || s.starts_with("std::result::Result<")
+            || s.starts_with("::std::result::Result<")
+            || s.starts_with("core::result::Result<")
+            || s.starts_with("::core::result::Result<")
     };
 
     // Use custom name if provided, otherwise use function name
